@@ -64,7 +64,7 @@ func c12Scenario(a *Alpha, ns NamedSkel, focus []string, elems int) mc.Scenario 
 		opts := []z.ExecOption{z.WithCtxValue("k1", "v1"), z.WithCtxValue("k2", 2)}
 		ctxStr := "k1=v1,k2=2,k3=<nil>,lang=<nil>"
 		if len(focus) <= 1 {
-			cv := x.Choose(7, "ctxValues")
+			cv := x.Choose(9, "ctxValues")
 			switch cv {
 			case 6:
 				// what the process did before: a top-level optional record was fed a request whose body cannot be decoded
@@ -88,6 +88,14 @@ func c12Scenario(a *Alpha, ns NamedSkel, focus []string, elems int) mc.Scenario 
 				var tmp string
 				z.String().Parse("prime", &tmp, z.WithCtxValue("k1", "stale"), z.WithCtxValue("k3", "stale3"))
 				opts, ctxStr = nil, "k1=<nil>,k2=<nil>,k3=<nil>,lang=<nil>"
+			case 7:
+				// defaults first, then the caller clears one of them: a later nil for the same key is the value passed last
+				opts = []z.ExecOption{z.WithCtxValue("k1", "v1"), z.WithCtxValue("k2", 2), z.WithCtxValue("k3", "default3"), z.WithCtxValue("k2", nil), z.WithCtxValue("k3", nil)}
+				ctxStr = "k1=v1,k2=<nil>,k3=<nil>,lang=<nil>"
+			case 8:
+				// falsy values are values: "", 0 and false are what Get returns, and a nil first is replaced by what follows
+				opts = []z.ExecOption{z.WithCtxValue("k1", nil), z.WithCtxValue("k2", 7), z.WithCtxValue("k1", ""), z.WithCtxValue("k2", 0), z.WithCtxValue("k3", false)}
+				ctxStr = "k1=,k2=0,k3=false,lang=<nil>"
 			case 2:
 				// defaults first, then the caller's override of the FIRST key: Get returns exactly the values passed, the later one
 				opts = []z.ExecOption{z.WithCtxValue("k1", "default"), z.WithCtxValue("k2", 2), z.WithCtxValue("k1", "v1")}
